@@ -6,6 +6,7 @@ import (
 	"fmt"
 	"runtime"
 	"sort"
+	"strings"
 	"sync"
 	"sync/atomic"
 	"time"
@@ -16,6 +17,7 @@ import (
 	"github.com/google/gce-tcb-verifier/sev"
 	"github.com/google/gce-tcb-verifier/timeproto"
 	"github.com/google/gce-tcb-verifier/verify"
+	cpb "github.com/google/go-sev-guest/proto/check"
 	spb "github.com/google/go-sev-guest/proto/sevsnp"
 	"google.golang.org/protobuf/proto"
 
@@ -38,8 +40,9 @@ func init() {
 
 type input struct {
 	id   int
-	kind string // endorsed4, endorsed8, unendorsed, short
+	kind string // endorsed4, endorsed8, unendorsed, short, endorsedB4 (second firmware build with its own endorsement)
 	m    []byte
+	raw  []byte // the endorsement that travels with this attestation (argument / certificate-table entry)
 }
 
 type callRec struct {
@@ -66,7 +69,15 @@ func run(c *core.Ctx) {
 	e := gen.Endorse(pki.Signer, g)
 	raw, _ := proto.Marshal(e)
 	vcek := gen.Vcek(now)
-	inputs := []input{{0, "endorsed4", m4}, {1, "endorsed8", m8}, {2, "unendorsed", mk(0x55)}, {3, "unendorsed", make([]byte, 48)}, {4, "short", m4[:47]}, {5, "unendorsed", mk(0x56)}}
+	// a second firmware build B with its own endorsement
+	mB4 := mk(0xb4)
+	gB := proto.Clone(g).(*epb.VMGoldenMeasurement)
+	gB.Digest = mk(2)
+	gB.SevSnp.Measurements = map[uint32][]byte{4: mB4, 8: mk(0xb8)}
+	eB := gen.Endorse(pki.Signer, gB)
+	rawB, _ := proto.Marshal(eB)
+	inputs := []input{{0, "endorsed4", m4, raw}, {1, "endorsed8", m8, raw}, {2, "unendorsed", mk(0x55), raw}, {3, "unendorsed", make([]byte, 48), raw}, {4, "short", m4[:47], raw},
+		{5, "unendorsed", mk(0x56), raw}, {6, "endorsedB4", mB4, rawB}, {7, "unendorsed", mB4, raw}}
 	url := func(m []byte) string { return verify.GCETcbURL(extractsev.GCETcbObjectName(sev.GCEUefiFamilyID, m)) }
 	getter := func() *doubles.Getter {
 		a := map[string][]byte{}
@@ -85,10 +96,11 @@ func run(c *core.Ctx) {
 		procs      int
 	}
 	var configs []config
-	for _, v := range []string{"one", "shared-pair", "sevvalidate"} {
-		for _, s := range []string{"arg", "options", "getter"} {
-			for _, k := range []uint32{0, 4} {
-				for _, gp := range [][2]int{{2, 2}, {4, 4}, {8, 4}, {16, 16}, {16, 2}} {
+	// validators vary fastest so that even a short run meets every kind
+	for _, gp := range [][2]int{{16, 16}, {4, 4}, {8, 4}, {2, 2}, {16, 2}} {
+		for _, k := range []uint32{4, 0} {
+			for _, s := range []string{"arg", "options", "getter"} {
+				for _, v := range []string{"one", "shared-pair", "sevvalidate-shared-options", "sevvalidate"} {
 					configs = append(configs, config{v, s, k, gp[0], gp[1]})
 				}
 			}
@@ -107,35 +119,48 @@ func run(c *core.Ctx) {
 		}
 		return o
 	}
-	arg := func(cf config) []byte {
+	arg := func(cf config, in input) []byte {
 		if cf.source == "arg" {
-			return raw
+			return in.raw
 		}
 		return nil
 	}
 	ctx := context.Background()
-	sevCall := func(cf config, in input) error {
+	mkSevOpts := func(cf config) *gcetcbendorsement.SevValidateOptions {
 		o := &gcetcbendorsement.SevValidateOptions{RootsOfTrust: roots, Now: now, ExpectedLaunchVmsas: cf.vmsas}
-		at := gen.SnpAttestation(in.m, vcek)
 		switch cf.source {
 		case "options":
 			o.Endorsement = e // shared, read-only
 		case "getter":
 			o.Getter = getter()
-		case "arg":
-			at.CertificateChain.Extras = map[string][]byte{sev.GCEFwCertGUID: raw}
+		}
+		if cf.validators == "sevvalidate-shared-options" {
+			o.BasePolicy = &cpb.Policy{MinimumVersion: "0.0", Policy: gen.ProdPolicy()}
+		}
+		return o
+	}
+	// shared: the caller keeps ONE options value (and one base policy) for all its validations
+	var sharedSev *gcetcbendorsement.SevValidateOptions
+	sevCall := func(cf config, in input, shared bool) error {
+		o := sharedSev
+		if !shared || o == nil {
+			o = mkSevOpts(cf)
+		}
+		at := gen.SnpAttestation(in.m, vcek)
+		if cf.source == "arg" {
+			at.CertificateChain.Extras = map[string][]byte{sev.GCEFwCertGUID: in.raw}
 		}
 		return gcetcbendorsement.SevValidate(ctx, at, o)
 	}
 	// isolated expectation: fresh options, fresh validator, one call
 	isolated := func(cf config, in input) bool {
-		if cf.validators == "sevvalidate" {
-			return sevCall(cf, in) == nil
+		if strings.HasPrefix(cf.validators, "sevvalidate") {
+			return sevCall(cf, in, false) == nil
 		}
 		f := verify.SNPValidateFunc(mkOpts(cf))
-		return f(&spb.Attestation{Report: &spb.Report{Measurement: in.m}}, arg(cf)) == nil
+		return f(&spb.Attestation{Report: &spb.Report{Measurement: in.m}}, arg(cf, in)) == nil
 	}
-	nh := c.N(60, 600)
+	nh := c.N(72, 600)
 	callsPer := 400
 	overlapHist := 0
 	for h := 0; h < nh; h++ {
@@ -153,7 +178,16 @@ func run(c *core.Ctx) {
 		}
 		// validators are created before the goroutines start
 		var fs []func(*spb.Attestation, []byte) error
-		if cf.validators != "sevvalidate" {
+		sharedSev = nil
+		var sharedSnap *gcetcbendorsement.SevValidateOptions
+		var sharedBaseSnap *cpb.Policy
+		if cf.validators == "sevvalidate-shared-options" {
+			sharedSev = mkSevOpts(cf)
+			cp := *sharedSev
+			sharedSnap = &cp
+			sharedBaseSnap = proto.Clone(sharedSev.BasePolicy).(*cpb.Policy)
+		}
+		if !strings.HasPrefix(cf.validators, "sevvalidate") {
 			shared := mkOpts(cf)
 			fs = append(fs, verify.SNPValidateFunc(shared))
 			if cf.validators == "shared-pair" {
@@ -169,9 +203,9 @@ func run(c *core.Ctx) {
 			for j := 0; j < per; j++ {
 				// half of the goroutines mostly send endorsed, the other half mostly unendorsed
 				if (gi%2 == 0) == (r.IntN(8) != 0) {
-					plans[gi] = append(plans[gi], r.IntN(2))
+					plans[gi] = append(plans[gi], []int{0, 1, 6}[r.IntN(3)])
 				} else {
-					plans[gi] = append(plans[gi], 2+r.IntN(4))
+					plans[gi] = append(plans[gi], []int{2, 3, 4, 5, 7}[r.IntN(5)])
 				}
 			}
 		}
@@ -185,11 +219,11 @@ func run(c *core.Ctx) {
 					in := inputs[id]
 					cs := seq.Add(1)
 					var err error
-					if cf.validators == "sevvalidate" {
-						err = sevCall(cf, in)
+					if strings.HasPrefix(cf.validators, "sevvalidate") {
+						err = sevCall(cf, in, true)
 					} else {
 						f := fs[(gi+j)%len(fs)]
-						err = f(&spb.Attestation{Report: &spb.Report{Measurement: in.m}}, arg(cf))
+						err = f(&spb.Attestation{Report: &spb.Report{Measurement: in.m}}, arg(cf, in))
 					}
 					rs := seq.Add(1)
 					recs[gi] = append(recs[gi], callRec{in: id, call: cs, ret: rs, accepted: err == nil})
@@ -203,15 +237,22 @@ func run(c *core.Ctx) {
 		for j := 0; j < 24; j++ {
 			in := inputs[(j*5+h)%len(inputs)]
 			var err error
-			if cf.validators == "sevvalidate" {
-				err = sevCall(cf, in)
+			if strings.HasPrefix(cf.validators, "sevvalidate") {
+				err = sevCall(cf, in, true)
 			} else {
-				err = fs[j%len(fs)](&spb.Attestation{Report: &spb.Report{Measurement: in.m}}, arg(cf))
+				err = fs[j%len(fs)](&spb.Attestation{Report: &spb.Report{Measurement: in.m}}, arg(cf, in))
 			}
 			s := seq.Add(2)
 			succ = append(succ, callRec{in: in.id, call: s - 1, ret: s, accepted: err == nil})
 		}
 		runtime.GOMAXPROCS(old)
+		if sharedSev != nil {
+			if sharedSev.Endorsement != sharedSnap.Endorsement || sharedSev.ExpectedLaunchVmsas != sharedSnap.ExpectedLaunchVmsas || sharedSev.BasePolicy == nil ||
+				sharedSev.Overwrite != sharedSnap.Overwrite || !proto.Equal(sharedSev.BasePolicy, sharedBaseSnap) {
+				c.Violate(core.Violation{Kind: "oracle", Entry: "validator/" + cf.validators, Site: "caller-options-modified-by-validation", Gen: gname, Case: h,
+					Detail: fmt.Sprintf("the options value shared by the calls changed: endorsement set=%v base policy now %v, was %v", sharedSev.Endorsement != nil, sharedSev.BasePolicy, sharedBaseSnap)})
+			}
+		}
 		// offline check of the recorded history
 		var all []callRec
 		for _, rr := range recs {
